@@ -604,9 +604,12 @@ class QueryObjectDescriptor(CanBehaveLikeAVariable[T], ABC):
 
     def _reset_only_my_cache_(self) -> None:
         super()._reset_only_my_cache_()
-        # a selected variable that no condition mentions is not a child of this node in the graph.
+        # a selected variable that no condition mentions is not a child of this node in the graph, neither are the
+        # variables it is built from (the arguments of a constructed instance).
         for variable in self.selected_variables:
             variable._var_._reset_only_my_cache_()
+            for argument in getattr(variable._var_, '_child_vars_', {}).values():
+                argument._reset_cache_()
 
     def _evaluate_(self, selected_vars: Optional[Iterable[CanBehaveLikeAVariable]] = None,
                    sources: Optional[Dict[int, HashedValue]] = None,
